@@ -130,7 +130,13 @@ func hashShapePair(t *rapid.T) (a, b val.V) {
 		}
 		return x, y
 	}
-	switch gen.Int(t, "hashShape", 0, 6) {
+	switch gen.Int(t, "hashShape", 0, 8) {
+	case 7, 8: // the same scalars in the same order, a nested list closing at another place
+		x, y := gen.BracketTwins(t)
+		if gen.Chance(t, "btInList", 50) {
+			return wrap([]val.V{0.0, x, 5.0}, []val.V{0.0, y, 5.0})
+		}
+		return wrap(x, y)
 	case 4: // strings whose codes share four bytes, facing each other or exchanged
 		pool := stringTwins
 		if gen.Chance(t, "hiBytes", 40) {
@@ -202,7 +208,12 @@ var _ = rapid.Bool
 func twinArrays(t *rapid.T) ([]val.V, []val.V) {
 	buildTwins()
 	var x, y val.V
-	switch gen.Int(t, "twinKind", 0, 3) {
+	switch gen.Int(t, "twinKind", 0, 6) {
+	case 4, 5: // elements that differ only in their bracketing
+		x, y = gen.BracketTwins(t)
+	case 6: // objects whose values are exchanged between the keys
+		v1, v2 := gen.Pick(t, "sw1", []val.V{1.0, "x", []val.V{1.0}}), gen.Pick(t, "sw2", []val.V{2.0, "y", []val.V{2.0}, map[string]val.V{"k": 1.0}})
+		x, y = map[string]val.V{"a": v1, "b": v2}, map[string]val.V{"a": v2, "b": v1}
 	case 0:
 		tw := gen.Pick(t, "stringTwin", stringTwins)
 		x, y = tw.X, tw.Y
